@@ -209,10 +209,9 @@ class ASTRewriter(ast.NodeTransformer):
             elts = tup.elts
 
             # The elements of a named tuple are read from the name: the expressions it
-            # was built from may have changed value since
-            if isinstance(node.value, ast.Name) and not all(
-                isinstance(e, ast.Constant) for e in elts
-            ):
+            # was built from may have changed value since, and the tuple recorded for
+            # the name may not be the one assigned on this path
+            if isinstance(node.value, ast.Name):
                 elts = [
                     ast.Subscript(
                         value=ast.Name(id=node.value.id, ctx=ast.Load()),
